@@ -348,6 +348,26 @@ func runProperty(prop string, pe *PropEntry, kf *KnownFindings, repo, vd string,
 		}
 		res.Units = append(res.Units, ur)
 	}
+	// enumerated (not deduced) side conditions, run against the real code
+	var enumDone []interface{}
+	for _, en := range pe.Enumerations {
+		ok, info := runEnumeration(vd, repo, en)
+		info["enumeration"] = en
+		if !ok {
+			res.Violations++
+			info["obligation"] = "enum:" + en
+			rp := writeReplay(vd, prop, "enum:"+en, info)
+			line := fmt.Sprintf("VIOLATION property=%s replay=%s", prop, rp)
+			if rep, _ := info["replayed"].(bool); !rep {
+				line += " no-failing-input-found"
+			}
+			res.Lines = append(res.Lines, line)
+		}
+		enumDone = append(enumDone, map[string]interface{}{"enumeration": en, "ok": ok, "result": info["replay_result"]})
+	}
+	if len(enumDone) > 0 {
+		res.Extra["enumerated_side_conditions"] = enumDone
+	}
 	if res.Obligations < pe.MinObligations {
 		fail("vacuity:obligation-count", fmt.Sprintf("only %d obligations generated, committed minimum is %d (front-end failure?)", res.Obligations, pe.MinObligations))
 	}
